@@ -32,6 +32,7 @@ type detCase struct {
 	GoMaxProcs []int      `json:"gomaxprocs"`
 	Cwd        string     `json:"cwd"` // relative to the temp root ("" = root)
 	Single     bool       `json:"single"` // additionally lint every arg alone with a fresh Linter (C10)
+	Reuse      bool       `json:"reuse"`  // one Linter instance for all repetitions (history of earlier runs)
 }
 
 type fileDiag struct {
@@ -185,16 +186,32 @@ func runDetCase(c detCase) (res detResult) {
 	idx := map[string]int{}
 	old := runtime.GOMAXPROCS(0)
 	defer runtime.GOMAXPROCS(old)
+	var shared *actionlint.Linter
+	var sharedBuf, buf0 bytes.Buffer
 	for rep := 0; rep < c.Reps; rep++ {
 		p := procs[rep%len(procs)]
 		runtime.GOMAXPROCS(p)
-		var buf bytes.Buffer
-		l, err := actionlint.NewLinter(&buf, &actionlint.LinterOptions{Color: actionlint.ColorOptionKindNever, WorkingDir: cwd, Oneline: rep%2 == 1})
+		var l *actionlint.Linter
+		var err error
+		if c.Reuse {
+			if shared == nil {
+				shared, err = actionlint.NewLinter(&sharedBuf, &actionlint.LinterOptions{Color: actionlint.ColorOptionKindNever, WorkingDir: cwd})
+			}
+			l = shared
+			sharedBuf.Reset()
+		} else {
+			l, err = actionlint.NewLinter(&buf0, &actionlint.LinterOptions{Color: actionlint.ColorOptionKindNever, WorkingDir: cwd, Oneline: rep%2 == 1})
+			buf0.Reset()
+		}
 		if err != nil {
 			res.Panic = "NewLinter: " + err.Error()
 			return
 		}
 		errs, err := l.LintFiles(abs, nil)
+		buf := &buf0
+		if c.Reuse {
+			buf = &sharedBuf
+		}
 		fatal := ""
 		if err != nil {
 			fatal = strings.ReplaceAll(err.Error(), root, "<root>")
@@ -206,7 +223,7 @@ func runDetCase(c detCase) (res detResult) {
 		for _, d := range ds {
 			key += fmt.Sprintf("%s:%d:%d:%s:%s\x00", d.File, d.Line, d.Col, d.Kind, d.Msg)
 		}
-		if rep%2 == 0 {
+		if rep%2 == 0 || c.Reuse {
 			key += "\x01" + text
 		}
 		res.Runs++
